@@ -754,7 +754,9 @@ def search(ctx):
                                   "contain a cycle" if not want else "form a forest"),
                               {"n": n, "edges": es, "pattern": [int(b) for b in pat],
                                "expected_satisfiable": want, "observed_satisfiable": got})
-            if m is not None:
+            if m is not None and (n <= 12 or rng.random() < 0.1):
+                # (the extracted specification computes in unary arithmetic: ~1 s per pattern on 18 vertices, so the
+                # larger structured graphs are validated on a sample of their patterns)
                 spec_reqs.append("F %s B %s" % (graphcap.graph_tok(n, es), " ".join("1" if b else "0" for b in pat)))
                 spec_meta.append((n, es, pat, want))
                 if model is not None and len(rank_vars) == n:
